@@ -131,6 +131,7 @@ func (tree *ObjectTree) newObject(opcode uint16, tableHandle uint8) *Object {
 
 	obj.opcode = opcode
 	obj.infoIndex = pOpcodeTableIndex(opcode, true)
+	obj.name = [amlNameLen]byte{}
 	obj.tableHandle = tableHandle
 	obj.parentIndex = InvalidIndex
 	obj.prevSiblingIndex = InvalidIndex
